@@ -15,7 +15,7 @@ from refmodel import (STATIC, RefDecoder, RefTable, RefError, int_octets, int_de
 Failure = namedtuple('Failure', 'index sig text')
 
 _TBL = re.compile(r'max=(\S+) cur=(\S+) res=(\S+) \[(.*?)\]')
-BIG = 1 << 62
+BIG = 1 << 200
 
 
 def unhex(s):
@@ -95,15 +95,16 @@ def judge_c11(ops, rep, ctx):
     cap_cont = ctx.get('cap_cont')     # max continuation octets the implementation admits (None = unbounded)
     for i, (op, r) in enumerate(zip(ops, rep)):
         t = strip_ann(op)
-        if t[0] == 'ienc':
-            n, N = int(t[1]), int(t[2])
+        if t[0] in ('ienc', 'ienchex'):
+            n, N = (int(t[1]) if t[0] == 'ienc' else int.from_bytes(unhex(t[1]), 'big')), int(t[2])
+            shown = ('%d' % n) if abs(n) < (1 << 300) else ('0x%x (%d bits)' % (n, n.bit_length()))
             if n < 0 or N < 1 or N > 8:
                 if r != 'esc ValueError':
-                    F.append(Failure(i, 'ienc-not-refused', 'encode_integer(%d,%d) must be refused with ValueError, got %s' % (n, N, r)))
+                    F.append(Failure(i, 'ienc-not-refused', 'encode_integer(%s,%d) must be refused with ValueError, got %s' % (shown, N, r)))
             else:
                 want = 'ok ' + hx(int_octets(n, N))
                 if r != want:
-                    F.append(Failure(i, 'ienc-wire', 'encode_integer(%d,%d) = %s, section 5.1 octets are %s' % (n, N, r, want)))
+                    F.append(Failure(i, 'ienc-wire', 'encode_integer(%s,%d) = %s, section 5.1 octets are %s' % (shown, N, r[:200], want[:200])))
         elif t[0] == 'idec':
             data, N = unhex(t[1]), int(t[2])
             if N < 1 or N > 8:
